@@ -323,6 +323,15 @@ fn a_val(rng: &mut Rng) -> Arg {
     }
     Arg::I(rng.below(value_palette().len()) as i128)
 }
+/// label and value of an extension entry: independent draws, or (1 in 5) a registered label with
+/// one of the value shapes registered entries take
+fn a_pair(rng: &mut Rng, kind: u8) -> Vec<Arg> {
+    if rng.chance(1, 5) {
+        let (l, v) = crate::common::gen_registered_pair(rng, kind);
+        return vec![Arg::I(l), Arg::B(crate::refcbor::encode(&v.to_item()))];
+    }
+    vec![a_label(rng), a_val(rng)]
+}
 fn a_from(rng: &mut Rng, xs: &[i64]) -> Arg {
     Arg::I(*rng.pick(xs) as i128)
 }
@@ -331,7 +340,10 @@ fn a_tok(rng: &mut Rng) -> Arg {
     // ciphertext sizes
     let mut t = format!("TOK#{}", rng.below(1000)).into_bytes();
     if rng.chance(1, 8) {
-        return Arg::B(crate::common::der_ecdsa_sig(&t, *rng.pick(&[32usize, 48, 66])));
+        return Arg::B(crate::common::der_ecdsa_sig(
+            &t,
+            *rng.pick(&[32usize, 48, 66]),
+        ));
     }
     if rng.bool() {
         let n = *rng.pick(&[8usize, 12, 16, 24, 32, 48, 64, 66, 96, 128, 132, 256, 512]);
@@ -395,7 +407,7 @@ fn gen_op(builder: &str, rng: &mut Rng) -> Step {
                 }],
             ),
             8 => o("add_counter_signature", gen_sig_args(rng)),
-            9 => o("value", vec![a_label(rng), a_val(rng)]),
+            9 => o("value", a_pair(rng, 0)),
             _ => o("text_value", vec![a_text(rng), a_val(rng)]),
         },
         "CoseSignature" => match rng.below(3) {
@@ -536,7 +548,7 @@ fn gen_op(builder: &str, rng: &mut Rng) -> Step {
             3 => o("base_iv", vec![a_small(rng)]),
             4 => o("algorithm", vec![a_reg(rng, ALGS, all_algs())]),
             5 => o("add_key_op", vec![a_reg(rng, KEY_OPS, all_key_ops())]),
-            _ => o("param", vec![a_label(rng), a_val(rng)]),
+            _ => o("param", a_pair(rng, 1)),
         },
         "ClaimsSet" => match rng.below(10) {
             0 => o("issuer", vec![a_text(rng)]),
@@ -546,10 +558,19 @@ fn gen_op(builder: &str, rng: &mut Rng) -> Step {
             4 => o("not_before", gen_ts(rng)),
             5 => o("issued_at", gen_ts(rng)),
             6 => o("cwt_id", vec![a_bytes(rng)]),
-            7 => o(
-                "claim",
-                vec![a_reg(rng, CLAIM_NAMES, all_claim_names()), a_val(rng)],
-            ),
+            7 => o("claim", {
+                let mut p = a_pair(rng, 2);
+                if let Arg::I(l) = p[0] {
+                    if crate::palette::all_claim_names().contains(&(l as i64)) && rng.bool() {
+                        p
+                    } else {
+                        p[0] = a_reg(rng, CLAIM_NAMES, all_claim_names());
+                        p
+                    }
+                } else {
+                    p
+                }
+            }),
             8 => o("text_claim", vec![a_text(rng), a_val(rng)]),
             _ => o(
                 "private_claim",
@@ -1017,6 +1038,42 @@ fn exec_signature(t: &Trace) -> HResult<Option<Violation>> {
     Ok(enc_obs(built, m.to_coset()))
 }
 
+/// What a stub creator function returns: the planned token, bound (three times in four) to the
+/// bytes the function was handed, so that the built value shows WHAT was signed / MACed /
+/// encrypted: long tokens keep their size (digest folded into the tail), short ones grow by it.
+fn bind(tok: &[u8], handed: &[u8]) -> Vec<u8> {
+    let mut out = tok.to_vec();
+    if crate::util::hash_bytes(tok) % 4 == 0 {
+        return out;
+    }
+    let d = crate::util::hash_bytes(handed).to_be_bytes();
+    if out.len() >= 16 {
+        let n = out.len();
+        for (i, x) in d.iter().enumerate() {
+            out[n - 8 + i] ^= x;
+        }
+    } else {
+        out.extend(d);
+    }
+    out
+}
+fn bind2(tok: &[u8], plaintext: &[u8], aad: &[u8]) -> Vec<u8> {
+    let mut h = Vec::with_capacity(plaintext.len() + aad.len() + 8);
+    h.extend((plaintext.len() as u64).to_be_bytes());
+    h.extend(plaintext);
+    h.extend(aad);
+    bind(tok, &h)
+}
+fn ctx_text(name: &str) -> &'static str {
+    match name {
+        "Encrypt" => "Encrypt",
+        "Encrypt0" => "Encrypt0",
+        "EncRecipient" => "Enc_Recipient",
+        "MacRecipient" => "Mac_Recipient",
+        _ => "Rec_Recipient",
+    }
+}
+
 /// Common protected/unprotected setters for message builders.
 macro_rules! hdr_ops {
     ($s:ident, $m:ident, $bt:ty) => {
@@ -1067,11 +1124,20 @@ fn exec_sign(t: &Trace) -> HResult<Option<Violation>> {
                     let cs = sig.to_coset();
                     let aad = s.bytes(3)?.to_vec();
                     let tok = s.bytes(4)?.to_vec();
-                    sig.signature = tok.clone();
+                    sig.signature = bind(
+                        &tok,
+                        &ref_sig_structure(
+                            "Signature",
+                            &m.protected,
+                            Some(&sig.protected),
+                            &aad,
+                            m.payload.as_deref().unwrap_or(&[]),
+                        ),
+                    );
                     m.signatures.push(sig);
                     (
                         Pred::Accept,
-                        ok(move |b: B| b.add_created_signature(cs, &aad, |_| tok)),
+                        ok(move |b: B| b.add_created_signature(cs, &aad, |d| bind(&tok, d))),
                         None,
                     )
                 }
@@ -1087,12 +1153,21 @@ fn exec_sign(t: &Trace) -> HResult<Option<Violation>> {
                         Pred::Accept
                     };
                     if pred == Pred::Accept {
-                        sig.signature = tok.clone();
+                        sig.signature = bind(
+                            &tok,
+                            &ref_sig_structure(
+                                "Signature",
+                                &m.protected,
+                                Some(&sig.protected),
+                                &aad,
+                                &pl,
+                            ),
+                        );
                         m.signatures.push(sig);
                     }
                     (
                         pred,
-                        ok(move |b: B| b.add_detached_signature(cs, &pl, &aad, |_| tok)),
+                        ok(move |b: B| b.add_detached_signature(cs, &pl, &aad, |d| bind(&tok, d))),
                         None,
                     )
                 }
@@ -1104,16 +1179,27 @@ fn exec_sign(t: &Trace) -> HResult<Option<Violation>> {
                     let fail = s.int(5)? == 1;
                     let e = tok_err(&tok);
                     if !fail {
-                        sig.signature = tok.clone();
+                        sig.signature = bind(
+                            &tok,
+                            &ref_sig_structure(
+                                "Signature",
+                                &m.protected,
+                                Some(&sig.protected),
+                                &aad,
+                                m.payload.as_deref().unwrap_or(&[]),
+                            ),
+                        );
                         m.signatures.push(sig);
                     }
                     let e2 = e.clone();
                     let ap: Ap<B> = Box::new(move |b: B| {
-                        b.try_add_created_signature(
-                            cs,
-                            &aad,
-                            |_| if fail { Err(e2) } else { Ok(tok) },
-                        )
+                        b.try_add_created_signature(cs, &aad, |d| {
+                            if fail {
+                                Err(e2)
+                            } else {
+                                Ok(bind(&tok, d))
+                            }
+                        })
                     });
                     (Pred::Accept, ap, if fail { Some(e) } else { None })
                 }
@@ -1131,16 +1217,25 @@ fn exec_sign(t: &Trace) -> HResult<Option<Violation>> {
                         Pred::Accept
                     };
                     if pred == Pred::Accept && !fail {
-                        sig.signature = tok.clone();
+                        sig.signature = bind(
+                            &tok,
+                            &ref_sig_structure(
+                                "Signature",
+                                &m.protected,
+                                Some(&sig.protected),
+                                &aad,
+                                &pl,
+                            ),
+                        );
                         m.signatures.push(sig);
                     }
                     let e2 = e.clone();
                     let ap: Ap<B> = Box::new(move |b: B| {
-                        b.try_add_detached_signature(cs, &pl, &aad, |_| {
+                        b.try_add_detached_signature(cs, &pl, &aad, |d| {
                             if fail {
                                 Err(e2)
                             } else {
-                                Ok(tok)
+                                Ok(bind(&tok, d))
                             }
                         })
                     });
@@ -1197,10 +1292,19 @@ fn exec_sign1(t: &Trace) -> HResult<Option<Violation>> {
                 "create_signature" => {
                     let aad = s.bytes(0)?.to_vec();
                     let tok = s.bytes(1)?.to_vec();
-                    m.signature = tok.clone();
+                    m.signature = bind(
+                        &tok,
+                        &ref_sig_structure(
+                            "Signature1",
+                            &m.protected,
+                            None,
+                            &aad,
+                            m.payload.as_deref().unwrap_or(&[]),
+                        ),
+                    );
                     (
                         Pred::Accept,
-                        ok(move |b: B| b.create_signature(&aad, |_| tok)),
+                        ok(move |b: B| b.create_signature(&aad, |d| bind(&tok, d))),
                         None,
                     )
                 }
@@ -1214,11 +1318,14 @@ fn exec_sign1(t: &Trace) -> HResult<Option<Violation>> {
                         Pred::Accept
                     };
                     if pred == Pred::Accept {
-                        m.signature = tok.clone();
+                        m.signature = bind(
+                            &tok,
+                            &ref_sig_structure("Signature1", &m.protected, None, &aad, &pl),
+                        );
                     }
                     (
                         pred,
-                        ok(move |b: B| b.create_detached_signature(&pl, &aad, |_| tok)),
+                        ok(move |b: B| b.create_detached_signature(&pl, &aad, |d| bind(&tok, d))),
                         None,
                     )
                 }
@@ -1228,11 +1335,23 @@ fn exec_sign1(t: &Trace) -> HResult<Option<Violation>> {
                     let fail = s.int(2)? == 1;
                     let e = tok_err(&tok);
                     if !fail {
-                        m.signature = tok.clone();
+                        m.signature = bind(
+                            &tok,
+                            &ref_sig_structure(
+                                "Signature1",
+                                &m.protected,
+                                None,
+                                &aad,
+                                m.payload.as_deref().unwrap_or(&[]),
+                            ),
+                        );
                     }
                     let e2 = e.clone();
                     let ap: Ap<B> = Box::new(move |b: B| {
-                        b.try_create_signature(&aad, |_| if fail { Err(e2) } else { Ok(tok) })
+                        b.try_create_signature(
+                            &aad,
+                            |d| if fail { Err(e2) } else { Ok(bind(&tok, d)) },
+                        )
                     });
                     (Pred::Accept, ap, if fail { Some(e) } else { None })
                 }
@@ -1248,15 +1367,18 @@ fn exec_sign1(t: &Trace) -> HResult<Option<Violation>> {
                         Pred::Accept
                     };
                     if pred == Pred::Accept && !fail {
-                        m.signature = tok.clone();
+                        m.signature = bind(
+                            &tok,
+                            &ref_sig_structure("Signature1", &m.protected, None, &aad, &pl),
+                        );
                     }
                     let e2 = e.clone();
                     let ap: Ap<B> = Box::new(move |b: B| {
-                        b.try_create_detached_signature(&pl, &aad, |_| {
+                        b.try_create_detached_signature(&pl, &aad, |d| {
                             if fail {
                                 Err(e2)
                             } else {
-                                Ok(tok)
+                                Ok(bind(&tok, d))
                             }
                         })
                     });
@@ -1321,9 +1443,21 @@ macro_rules! mac_like {
                                 Pred::Accept
                             };
                             if pred == Pred::Accept {
-                                m.tag = tok.clone();
+                                m.tag = bind(
+                                    &tok,
+                                    &ref_mac_structure(
+                                        if $has_rcpt { "MAC" } else { "MAC0" },
+                                        &m.protected,
+                                        &aad,
+                                        m.payload.as_deref().unwrap_or(&[]),
+                                    ),
+                                );
                             }
-                            (pred, ok(move |b: B| b.create_tag(&aad, |_| tok)), None)
+                            (
+                                pred,
+                                ok(move |b: B| b.create_tag(&aad, |d| bind(&tok, d))),
+                                None,
+                            )
                         }
                         "try_create_tag" => {
                             let aad = s.bytes(0)?.to_vec();
@@ -1336,11 +1470,25 @@ macro_rules! mac_like {
                                 Pred::Accept
                             };
                             if pred == Pred::Accept && !fail {
-                                m.tag = tok.clone();
+                                m.tag = bind(
+                                    &tok,
+                                    &ref_mac_structure(
+                                        if $has_rcpt { "MAC" } else { "MAC0" },
+                                        &m.protected,
+                                        &aad,
+                                        m.payload.as_deref().unwrap_or(&[]),
+                                    ),
+                                );
                             }
                             let e2 = e.clone();
                             let ap: Ap<B> = Box::new(move |b: B| {
-                                b.try_create_tag(&aad, |_| if fail { Err(e2) } else { Ok(tok) })
+                                b.try_create_tag(&aad, |d| {
+                                    if fail {
+                                        Err(e2)
+                                    } else {
+                                        Ok(bind(&tok, d))
+                                    }
+                                })
                             });
                             (
                                 pred,
@@ -1457,10 +1605,14 @@ fn exec_encrypt(t: &Trace) -> HResult<Option<Violation>> {
                     let pt = s.bytes(0)?.to_vec();
                     let aad = s.bytes(1)?.to_vec();
                     let tok = s.bytes(2)?.to_vec();
-                    m.ciphertext = Some(tok.clone());
+                    m.ciphertext = Some(bind2(
+                        &tok,
+                        &pt,
+                        &ref_enc_structure("Encrypt", &m.protected, &aad),
+                    ));
                     (
                         Pred::Accept,
-                        ok(move |b: B| b.create_ciphertext(&pt, &aad, |_, _| tok)),
+                        ok(move |b: B| b.create_ciphertext(&pt, &aad, |p, a| bind2(&tok, p, a))),
                         None,
                     )
                 }
@@ -1471,15 +1623,21 @@ fn exec_encrypt(t: &Trace) -> HResult<Option<Violation>> {
                     let fail = s.int(3)? == 1;
                     let e = tok_err(&tok);
                     if !fail {
-                        m.ciphertext = Some(tok.clone());
+                        m.ciphertext = Some(bind2(
+                            &tok,
+                            &pt,
+                            &ref_enc_structure("Encrypt", &m.protected, &aad),
+                        ));
                     }
                     let e2 = e.clone();
                     let ap: Ap<B> = Box::new(move |b: B| {
-                        b.try_create_ciphertext(
-                            &pt,
-                            &aad,
-                            |_, _| if fail { Err(e2) } else { Ok(tok) },
-                        )
+                        b.try_create_ciphertext(&pt, &aad, |p, a| {
+                            if fail {
+                                Err(e2)
+                            } else {
+                                Ok(bind2(&tok, p, a))
+                            }
+                        })
                     });
                     (Pred::Accept, ap, if fail { Some(e) } else { None })
                 }
@@ -1528,10 +1686,14 @@ fn exec_encrypt0(t: &Trace) -> HResult<Option<Violation>> {
                     let pt = s.bytes(0)?.to_vec();
                     let aad = s.bytes(1)?.to_vec();
                     let tok = s.bytes(2)?.to_vec();
-                    m.ciphertext = Some(tok.clone());
+                    m.ciphertext = Some(bind2(
+                        &tok,
+                        &pt,
+                        &ref_enc_structure("Encrypt0", &m.protected, &aad),
+                    ));
                     (
                         Pred::Accept,
-                        ok(move |b: B| b.create_ciphertext(&pt, &aad, |_, _| tok)),
+                        ok(move |b: B| b.create_ciphertext(&pt, &aad, |p, a| bind2(&tok, p, a))),
                         None,
                     )
                 }
@@ -1542,15 +1704,21 @@ fn exec_encrypt0(t: &Trace) -> HResult<Option<Violation>> {
                     let fail = s.int(3)? == 1;
                     let e = tok_err(&tok);
                     if !fail {
-                        m.ciphertext = Some(tok.clone());
+                        m.ciphertext = Some(bind2(
+                            &tok,
+                            &pt,
+                            &ref_enc_structure("Encrypt0", &m.protected, &aad),
+                        ));
                     }
                     let e2 = e.clone();
                     let ap: Ap<B> = Box::new(move |b: B| {
-                        b.try_create_ciphertext(
-                            &pt,
-                            &aad,
-                            |_, _| if fail { Err(e2) } else { Ok(tok) },
-                        )
+                        b.try_create_ciphertext(&pt, &aad, |p, a| {
+                            if fail {
+                                Err(e2)
+                            } else {
+                                Ok(bind2(&tok, p, a))
+                            }
+                        })
                     });
                     (Pred::Accept, ap, if fail { Some(e) } else { None })
                 }
@@ -1606,11 +1774,17 @@ fn exec_recipient(t: &Trace) -> HResult<Option<Violation>> {
                         Pred::Refuse
                     };
                     if pred == Pred::Accept {
-                        m.ciphertext = Some(tok.clone());
+                        m.ciphertext = Some(bind2(
+                            &tok,
+                            &pt,
+                            &ref_enc_structure(ctx_text(&cn), &m.protected, &aad),
+                        ));
                     }
                     (
                         pred,
-                        ok(move |b: B| b.create_ciphertext(ctx, &pt, &aad, |_, _| tok)),
+                        ok(move |b: B| {
+                            b.create_ciphertext(ctx, &pt, &aad, |p, a| bind2(&tok, p, a))
+                        }),
                         None,
                     )
                 }
@@ -1628,15 +1802,19 @@ fn exec_recipient(t: &Trace) -> HResult<Option<Violation>> {
                         Pred::Refuse
                     };
                     if pred == Pred::Accept && !fail {
-                        m.ciphertext = Some(tok.clone());
+                        m.ciphertext = Some(bind2(
+                            &tok,
+                            &pt,
+                            &ref_enc_structure(ctx_text(&cn), &m.protected, &aad),
+                        ));
                     }
                     let e2 = e.clone();
                     let ap: Ap<B> = Box::new(move |b: B| {
-                        b.try_create_ciphertext(ctx, &pt, &aad, |_, _| {
+                        b.try_create_ciphertext(ctx, &pt, &aad, |p, a| {
                             if fail {
                                 Err(e2)
                             } else {
-                                Ok(tok)
+                                Ok(bind2(&tok, p, a))
                             }
                         })
                     });
@@ -2237,6 +2415,7 @@ impl Engine for C19 {
     fn gen(&self, seed: u64, run: u64, _tier: Tier) -> Trace {
         let mut rng = Rng::for_run(seed, run, "C19");
         let mut t = Trace::new("C19", seed, run);
+        crate::palette::draw_favourite_header(&mut rng);
         let builder = BUILDERS[rng.below(BUILDERS.len())];
         t.set_meta("builder", builder);
         if rng.chance(1, 4) {
@@ -2273,11 +2452,16 @@ impl Engine for C19 {
                 t.push(gen_op(builder, &mut rng));
             }
         }
+        crate::palette::clear_favourite_header();
         t
     }
     fn exec(&self, t: &Trace, st: &mut RunStats) -> HResult<Option<Violation>> {
         let builder = t.meta_req("builder")?.to_string();
-        crate::model::set_headers_via_decode(if t.meta("headers") == Some("decoded") { 2 } else { 0 });
+        crate::model::set_headers_via_decode(if t.meta("headers") == Some("decoded") {
+            2
+        } else {
+            0
+        });
         let nops = t.steps.iter().filter(|s| s.kind == "op").count();
         st.inc(&format!("histories:{}", builder));
         st.add("builder_calls", nops as u64);
